@@ -146,7 +146,14 @@ func nativeBatch(id, pkg string, items []nativeItem) ([]nativeResult, string, er
 	var log bytes.Buffer
 	start := 0
 	for start < len(items) {
-		batch := items[start:]
+		// one process per run of items with the same "taskset" parameter: the native binary
+		// sees as many CPUs (runtime.NumCPU) as the job's worker count says
+		cpus := items[start].Params["taskset"]
+		end := start + 1
+		for end < len(items) && items[end].Params["taskset"] == cpus {
+			end++
+		}
+		batch := items[start:end]
 		bp := filepath.Join(dir, "batch.json")
 		op := filepath.Join(dir, "batch.out")
 		data, _ := json.Marshal(batch)
@@ -162,6 +169,11 @@ func nativeBatch(id, pkg string, items []nativeItem) ([]nativeResult, string, er
 			}
 		}
 		cmd := exec.Command(bin, "-test.run", "^TestNativePlayback$", "-test.count=1", "-test.timeout=20m")
+		if cpus != "" {
+			if k, err := strconv.Atoi(cpus); err == nil && k >= 1 && k <= runtime.NumCPU() {
+				cmd = exec.Command("taskset", "-c", "0-"+strconv.Itoa(k-1), bin, "-test.run", "^TestNativePlayback$", "-test.count=1", "-test.timeout=20m")
+			}
+		}
 		cmd.Dir = dir
 		scratch := filepath.Join(dir, "tmp")
 		os.RemoveAll(scratch)
